@@ -1,1 +1,78 @@
-From TT Require Import Base.Prelude Base.SrtTypes Model.SrtReader Spec.SrtCueSpec.
+(* C10 - the SRT reader reproduces every cue's time, lines and formatting exactly.
+   M = Model/SrtReader.v (transcription of ttconv/srt/reader.py to_model / _TextParser and utils.parse_color, with a
+   hand-written stand-in for html.parser), S = Spec/SrtCueSpec.v (abstract cue files: `cues` is what must be
+   read, `print_file` is the concrete syntax, `wf_file` the grammar's side conditions).
+   `read_cues_file` reads through a text-mode file with universal newlines (as tt.py opens SRT files),
+   `read_cues` through a stream that does not translate newlines (io.StringIO).
+
+   Full statement (false of the faithful model because of the recorded findings, see Findings/C10.v):
+     forall f, wf_file f = true -> read_cues_file (print_file f) = Ok (cues f).
+   Proved below: the statement for every file whose payloads are plain text and line breaks under arbitrarily
+   nested / adjacent b, i, u tags in angle syntax (short, long and upper-case names), with triggers
+   `trigger_backslash` excluded (brace-short tags and stray closers are not in that sub-grammar), for LF and
+   CR LF terminators, any counters, blank-line runs, hour widths, white space and timing-line tails.
+   Not proved (compared on generated files only, harness/c10.py `model_spec` and `spec_ok`): <font color=..> tags,
+   character references, the long brace forms {bold} {italic} {underline}, and files whose last line has no
+   terminator (f_final_eol = false). *)
+From TT Require Import Base.Prelude Base.SrtTypes Gen.SrtTables Model.SrtReader Spec.SrtCueSpec
+  Proofs.C10.Time Proofs.C10.Roundtrip Proofs.C10.Tags Proofs.C10.Witness.
+From Coq Require Import QArith.
+Local Open Scope Z_scope.
+
+(* every digit string of the pattern HH(H):MM:SS,mmm --> HH(H):MM:SS,mmm, whatever the white space around the
+   arrow and whatever follows: begin and end are h*3600 + m*60 + s + ms/1000 of the printed digits, as rationals in
+   lowest terms (structurally Qred of the specification's value) and hence equal as rationals *)
+Theorem C10_exact_time : forall bh bm bs bms ws1 ws2 eh em es ems tail,
+  clock_digits bh bm bs bms -> clock_digits eh em es ems ->
+  ws1 <> [] -> forallb is_space ws1 = true -> ws2 <> [] -> forallb is_space ws2 = true ->
+  exists g, search_tc (timing_text bh bm bs bms ws1 ws2 eh em es ems tail) = Some g /\
+    seconds_of (g_bh g) (g_bm g) (g_bs g) (g_bms g) = Qred (printed_seconds bh bm bs bms) /\
+    seconds_of (g_eh g) (g_em g) (g_es g) (g_ems g) = Qred (printed_seconds eh em es ems) /\
+    Qeq (seconds_of (g_bh g) (g_bm g) (g_bs g) (g_bms g)) (printed_seconds bh bm bs bms) /\
+    Qeq (seconds_of (g_eh g) (g_em g) (g_es g) (g_ems g)) (printed_seconds eh em es ems).
+Proof. exact exact_time. Qed.
+
+(* round trip, tag-free text: one cue per paragraph, exact times, lines in order separated by line breaks *)
+Theorem C10_roundtrip_partial : forall f, wf_file f = true -> f_final_eol f = true -> plain_file f = true ->
+  trigger_backslash f = false -> read_cues_file (print_file f) = Ok (cues f).
+Proof. exact roundtrip_plain_file. Qed.
+Theorem C10_roundtrip_stringio_partial : forall f, wf_file f = true -> f_final_eol f = true -> f_crlf f = false -> plain_file f = true ->
+  trigger_backslash f = false -> read_cues (print_file f) = Ok (cues f).
+Proof. exact roundtrip_plain_lf. Qed.
+
+(* tag scoping: with b/i/u tags in angle syntax, nested and adjacent at will, each character carries exactly the
+   styles of the tags that enclose it (`cues` is defined by that rule); includes the previous theorem *)
+Theorem C10_tags_scope_partial : forall f, wf_file f = true -> f_final_eol f = true -> angle_file f = true ->
+  trigger_backslash f = false -> read_cues_file (print_file f) = Ok (cues f).
+Proof. exact roundtrip_angle_file. Qed.
+Theorem C10_tags_scope_stringio_partial : forall f, wf_file f = true -> f_final_eol f = true -> f_crlf f = false -> angle_file f = true ->
+  trigger_backslash f = false -> read_cues (print_file f) = Ok (cues f).
+Proof. exact roundtrip_angle_lf. Qed.
+
+(* counters, blank-line runs, 2- or 3-digit hour fields, white space, tails and terminators are tolerated: two files
+   that agree on clock fields and payloads read the same *)
+Theorem C10_tolerates : forall f f',
+  wf_file f = true -> wf_file f' = true -> f_final_eol f = true -> f_final_eol f' = true ->
+  angle_file f = true -> angle_file f' = true -> trigger_backslash f = false -> trigger_backslash f' = false ->
+  Forall2 same_content (f_cues f) (f_cues f') ->
+  read_cues_file (print_file f) = read_cues_file (print_file f') /\ read_cues_file (print_file f) = Ok (cues f).
+Proof. exact tolerates. Qed.
+
+(* non-vacuity: a file meeting every hypothesis, and what is read from it *)
+Example C10_example : wf_file f_example = true /\ angle_file f_example = true /\ trigger_backslash f_example = false /\
+  f_final_eol f_example = true /\
+  read_cues_file (print_file f_example) = Ok (cues f_example) /\
+  cues f_example = [(Qmake 363599999 1000, Qmake 3602439 1,
+                     [Ch 97 (mkSt true false false None); Ch 98 (mkSt true true false None); Brk; Ch 99 (mkSt true true false None);
+                      Ch 100 (mkSt true false true None); Ch 92 st0; Ch 62 st0]);
+                    (Qmake 1 1, Qmake 5 2, [Ch 8364 st0; Brk; Ch 120 st0])].
+Proof. exact example_ok. Qed.
+(* 00:00:00,280 is 7/25 (it was 0.28000000000000003 before the fix) *)
+Example C10_example_280 : read_cues (print_file (mkFile [] [mkCue [49] (mkClock 0 false 0 0 280) [32] [32] (mkClock 0 false 0 1 70) [] [NChar 120] [[]]] false true))
+  = Ok [(Qmake 7 25, Qmake 107 100, [Ch 120 st0])].
+Proof. exact example_280. Qed.
+
+Print Assumptions C10_exact_time.
+Print Assumptions C10_roundtrip_partial.  Print Assumptions C10_roundtrip_stringio_partial.
+Print Assumptions C10_tags_scope_partial.  Print Assumptions C10_tags_scope_stringio_partial.
+Print Assumptions C10_tolerates.
